@@ -22,11 +22,12 @@ func (ft *FT) pkgAlias(id *ast.Ident) (string, bool) {
 func (ft *FT) globalVal(pkg, name string) Val {
 	g := Root{Kind: KGlobal, Name: pkg + "." + name}
 	t := globalType(pkg, name)
+	trusted := false
 	if lt, ok := libGlobals[pkg+"."+name]; ok {
-		t = lt
+		t, trusted = lt, true
 	}
 	ft.read(rs(g))
-	return Val{T: t, Pts: rs(g)}
+	return Val{T: t, Pts: rs(g), Trusted: trusted}
 }
 
 // base returns the object set on which a field/index of x operates.
@@ -112,6 +113,19 @@ func (ft *FT) eval(e ast.Expr) Val {
 			return Val{T: t.ptrTo(), Pts: ft.addr(e.X)}
 		}
 		v := ft.eval(e.X)
+		if e.Op == token.ARROW {
+			// <-ch: what a channel delivers was put there by someone else; a received
+			// reference may point anywhere (fail closed)
+			ft.readVal(v)
+			et := unknownT
+			if ct, ok := v.T.under().E.(*ast.ChanType); ok {
+				et = Type{E: ct.Value, Pkg: v.T.under().Pkg}
+			}
+			if et.hasRef() {
+				return Val{T: et, Pts: unknownSet.copy()}
+			}
+			return scalar(et)
+		}
 		return scalar(v.T)
 	case *ast.StarExpr:
 		v := ft.eval(e.X)
@@ -190,7 +204,7 @@ func (ft *FT) eval(e ast.Expr) Val {
 		}
 		t := Type{E: e.Type, Pkg: ft.pk.Dir}
 		if t.hasRef() {
-			return Val{T: t, Pts: v.Pts}
+			return Val{T: t, Pts: v.Pts, Trusted: v.Trusted}
 		}
 		return scalar(t)
 	case *ast.CallExpr:
@@ -211,15 +225,18 @@ func (ft *FT) eval(e ast.Expr) Val {
 }
 
 func (ft *FT) evalIdent(e *ast.Ident) Val {
-	switch e.Name {
-	case "nil":
-		return scalar(unknownT)
-	case "true", "false":
-		if e.Obj == nil {
-			return scalar(identT("bool"))
-		}
-	case "iota", "_":
+	if e.Name == "_" {
 		return scalar(identT("int"))
+	}
+	if e.Obj == nil && !ft.pk.declares(e.Name) { // predeclared, unless the package scope shadows it
+		switch e.Name {
+		case "nil":
+			return scalar(unknownT)
+		case "true", "false":
+			return scalar(identT("bool"))
+		case "iota":
+			return scalar(identT("int"))
+		}
 	}
 	if e.Obj != nil {
 		if vr := ft.vars[e.Obj]; vr != nil {
@@ -230,7 +247,8 @@ func (ft *FT) evalIdent(e *ast.Ident) Val {
 				}
 				return scalar(vr.T)
 			}
-			return Val{T: vr.T, Pts: vr.Pts.copy(), NoRef: vr.ZeroDecl && !vr.GotLost && len(vr.Pts) == 0}
+			return Val{T: vr.T, Pts: vr.Pts.copy(), NoRef: vr.ZeroDecl && !vr.GotLost && len(vr.Pts) == 0,
+				Trusted: !vr.IfaceUntrusted}
 		}
 		if e.Obj.Kind == ast.Con {
 			return scalar(identT("int"))
